@@ -13,7 +13,7 @@ import nbformat
 
 import nbdime.log
 from .chunks import chunk_typename
-from .decisions import MergeDecisionBuilder, push_patch_decision
+from .decisions import MergeDecisionBuilder, push_patch_decision, resolve_action
 from ..diff_format import (
     DiffOp, ParentDeleted,
     op_patch, op_addrange, op_removerange, op_add, op_replace)
@@ -125,7 +125,7 @@ def collect_unresolved_diffs(base_path, unresolved_conflicts):
 
 
 
-def bundle_decisions_by_index(base_path, decisions):
+def bundle_decisions_by_index(base_path, decisions, base=None):
     """"""
     decisions_by_index = defaultdict(list)
     level = len(base_path)
@@ -137,6 +137,15 @@ def bundle_decisions_by_index(base_path, decisions):
             key = d.common_path[level]
             # Wrap decision diffs in patches so common_path points to list
             prefix = d.common_path[level:]
+            if base is not None and d.action in ("clear", "remove", "take_max"):
+                # These actions name the key they act on through the keys of
+                # the diffs, relative to common_path: spell them out as a
+                # diff before the path is moved (otherwise e.g. clearing the
+                # execution_count of an output would clear the whole output)
+                custom_diff = resolve_action(resolve_path(base, prefix), d)
+                d = copy.copy(d)
+                d.action = "custom"
+                d.custom_diff = custom_diff
             d = push_patch_decision(d, prefix)
         else:
             # Removerange or addrange will have common_path
@@ -413,7 +422,7 @@ def make_inline_cell_conflict(base_cells, local_diff, remote_diff):
 def resolve_strategy_remove_outputs(base_path, outputs, decisions):
     strategy = "remove"
 
-    decisions_by_index = bundle_decisions_by_index(base_path, decisions)
+    decisions_by_index = bundle_decisions_by_index(base_path, decisions, outputs)
     decisions.decisions = []
     for key, decs in sorted(decisions_by_index.items()):
         if not any(d.conflict for d in decs):
@@ -434,7 +443,7 @@ def resolve_strategy_remove_outputs(base_path, outputs, decisions):
 def resolve_strategy_inline_outputs(base_path, outputs, decisions):
     strategy = "inline-outputs"
 
-    decisions_by_index = bundle_decisions_by_index(base_path, decisions)
+    decisions_by_index = bundle_decisions_by_index(base_path, decisions, outputs)
     decisions.decisions = []
     for key, decs in sorted(decisions_by_index.items()):
         if not any(d.conflict for d in decs):
